@@ -78,12 +78,58 @@ def _eliminate_returns_deep(stmts, cont=()):
     return None
 
 
+def _guarded_try_returns(body):
+    """In a procedure: `try: if not X: return  except E: return` followed by REST is `try: live = bool(X)  except E: live = False`
+    followed by `if live: REST` -- X is evaluated and tested inside the `try` either way, and REST runs exactly when it was truthy."""
+    for i, st in enumerate(body):
+        if isinstance(st, ast.Try) and not st.finalbody and not st.orelse and st.handlers and len(st.body) == 1 \
+                and isinstance(st.body[0], ast.If) and not st.body[0].orelse and len(st.body[0].body) == 1 and _is_bare_return(st.body[0].body[0]) \
+                and all(len(h.body) == 1 and _is_bare_return(h.body[0]) and h.name is None for h in st.handlers) and i + 1 < len(body):
+            t = st.body[0].test
+            live = t.operand if isinstance(t, ast.UnaryOp) and isinstance(t.op, ast.Not) else ast.UnaryOp(op=ast.Not(), operand=t)
+            if isinstance(t, ast.UnaryOp) and isinstance(t.op, ast.Not):
+                live = ast.Call(func=ast.Name(id="bool", ctx=ast.Load()), args=[copy.deepcopy(live)], keywords=[])
+            flag = "live__g%d" % next(_counter)
+            mk = lambda v, at: ast.copy_location(ast.Assign(targets=[ast.Name(id=flag, ctx=ast.Store())], value=v), at)
+            nt = ast.copy_location(ast.Try(body=[mk(live, st.body[0])], handlers=[], orelse=[], finalbody=[]), st)
+            for h in st.handlers:
+                h2 = copy.copy(h)
+                h2.body = [mk(ast.Constant(value=False), h)]
+                nt.handlers.append(h2)
+            rest = _guarded_try_returns(list(body[i + 1:]))
+            guard = ast.copy_location(ast.If(test=ast.Name(id=flag, ctx=ast.Load()), body=rest, orelse=[]), st)
+            out = list(body[:i]) + [nt, guard]
+            for x in out[i:]:
+                ast.fix_missing_locations(x)
+            return out
+    return body
+
+
+def _tail_loop_returns_to_breaks(body):
+    """A bare `return` directly inside the loop that ends a procedure (not inside a nested loop) leaves exactly as `break` does."""
+    if not body or not isinstance(body[-1], (ast.While, ast.For)) or body[-1].orelse:
+        return body
+
+    class T(ast.NodeTransformer):
+        def visit_While(self, n):
+            return n
+        visit_For = visit_AsyncFor = visit_FunctionDef = visit_AsyncFunctionDef = visit_ClassDef = visit_Lambda = visit_While
+
+        def visit_Return(self, n):
+            return ast.copy_location(ast.Break(), n)
+    loop = copy.deepcopy(body[-1])
+    loop.body = [T().visit(s) for s in loop.body]
+    return body[:-1] + [loop]
+
+
 def _simple_body(fn, want_expr=False):
     """('none'|'value', body_without_return, return_expr) or None."""
     body = list(fn.body)
     if body and isinstance(body[0], ast.Expr) and isinstance(body[0].value, ast.Constant) and isinstance(body[0].value.value, str):
         body = body[1:]
     if all(_is_bare_return(n) for n in ast.walk(fn) if isinstance(n, ast.Return)):
+        body = _tail_loop_returns_to_breaks(body)
+        body = _guarded_try_returns(body)
         body = _eliminate_early_returns(body)
         if any(isinstance(n, ast.Return) for st in body for n in ast.walk(st)):
             deep = _eliminate_returns_deep(body)          # returns nested deeper than one `if`
@@ -418,6 +464,8 @@ def _expand(fn, call, is_method, self_expr=None, want_expr=False):
         star[p[1:]] = extras
     for p, arg in binding.items():
         simple = isinstance(arg, (ast.Name, ast.Constant)) or (isinstance(arg, ast.Attribute) and isinstance(arg.value, ast.Name))
+        # a tuple display of the caller's own names: the helper cannot rebind them, so the display means the same at every use
+        simple = simple or (isinstance(arg, ast.Tuple) and arg.elts and all(isinstance(x, (ast.Name, ast.Constant)) for x in arg.elts))
         if simple and p not in stored:
             mapping[p] = arg
         else:
@@ -688,7 +736,7 @@ def _is_njit(fn):
     return any(d in ("njit", "jit") for d in _decorators(fn))
 
 
-def _first_value_choice(expr):
+def _first_value_choice(expr, anytest=False):
     """The first `a or b` (a: plain name) / `u if a else v` (a: plain name) used as a value inside `expr`, outside lambdas and
     comprehensions and not inside another choice: (node, test, value-if-true, value-if-false)."""
     stack = [expr]
@@ -702,6 +750,13 @@ def _first_value_choice(expr):
             continue
         if isinstance(n, ast.IfExp):
             if isinstance(n.test, ast.Name) and n is not expr:
+                return (n, n.test, n.body, n.orelse)
+            if anytest and n is not expr:
+                return (n, n.test, n.body, n.orelse)
+            # `u if a is None else v`: a test on a local's identity, which nothing evaluated earlier in the statement can change
+            if isinstance(n.test, ast.Compare) and isinstance(n.test.left, ast.Name) and len(n.test.ops) == 1 \
+                    and isinstance(n.test.ops[0], (ast.Is, ast.IsNot)) and isinstance(n.test.comparators[0], ast.Constant) \
+                    and n.test.comparators[0].value is None and n is not expr:
                 return (n, n.test, n.body, n.orelse)
             continue
         if isinstance(n, ast.Compare):
@@ -732,6 +787,9 @@ def _split_simple_statements(stmts):
                 and not isinstance(s.value, (ast.IfExp, ast.BoolOp)):
             # `x = F(a or b)` / `x = F(u if a else v)` with a plain name `a`  ->  `if a: x = F(a) else: x = F(b)`
             sel = _first_value_choice(s.value)
+            if sel is None and _pure_expr(s.value) and not any(isinstance(x, (ast.Subscript, ast.Attribute)) for x in ast.walk(s.value)):
+                # scalar arithmetic over locals with a conditional operand somewhere inside: nothing is observable but the value
+                sel = _first_value_choice(s.value, anytest=True)
             if sel is not None:
                 node, test, yes, no = sel
 
@@ -750,6 +808,32 @@ def _split_simple_statements(stmts):
                     return R2().visit(v)
                 mk = lambda v: ast.copy_location(ast.Assign(targets=[copy.deepcopy(s.targets[0])], value=v), s)
                 s2 = ast.copy_location(ast.If(test=copy.deepcopy(test), body=[mk(_with(yes))], orelse=[mk(_with(no))]), s)
+                ast.fix_missing_locations(s2)
+                out.extend(_split_simple_statements([s2]))
+                continue
+        if isinstance(s, ast.Return) and s.value is not None and not isinstance(s.value, (ast.IfExp, ast.BoolOp)) and _pure_expr(s.value) \
+                and not any(isinstance(x, (ast.Subscript, ast.Attribute)) for x in ast.walk(s.value)):
+            # `return a - (u if c else v)` over scalar locals -> `if c: return a - u  else: return a - v`
+            sel = _first_value_choice(s.value, anytest=True)
+            if sel is not None:
+                node, test, yes, no = sel
+
+                def _rwith(repl):
+                    v = copy.deepcopy(s.value)
+                    tgt = None
+                    for a, b in zip(ast.walk(s.value), ast.walk(v)):
+                        if a is node:
+                            tgt = b
+                            break
+
+                    class R3(ast.NodeTransformer):
+                        def visit(self, n):
+                            if n is tgt:
+                                return copy.deepcopy(repl)
+                            return self.generic_visit(n)
+                    return R3().visit(v)
+                s2 = ast.copy_location(ast.If(test=copy.deepcopy(test), body=[ast.copy_location(ast.Return(value=_rwith(yes)), s)],
+                                              orelse=[ast.copy_location(ast.Return(value=_rwith(no)), s)]), s)
                 ast.fix_missing_locations(s2)
                 out.extend(_split_simple_statements([s2]))
                 continue
@@ -1066,6 +1150,41 @@ def _inline_adjacent_single_use(stmts, uses):
             changed += 1
             i += 1
             continue
+        if (isinstance(s, ast.Assign) and len(s.targets) == 1 and isinstance(s.targets[0], ast.Name) and isinstance(nxt, (ast.Assign, ast.Return, ast.Expr))
+                and uses.get(s.targets[0].id) == (1, 1) and isinstance(s.value, ast.Tuple) and s.value.elts and nxt.value is not None
+                and all(_atom_elt(e) for e in s.value.elts) and not any(isinstance(n, ast.NamedExpr) for n in ast.walk(nxt.value))):
+            # `rows = (<atoms>); x = next((c for d, c in rows if ...), None)`
+            name = s.targets[0].id
+            loads = [n for n in ast.walk(nxt.value) if isinstance(n, ast.Name) and n.id == name and isinstance(n.ctx, ast.Load)]
+            iters = [g.iter for n in ast.walk(nxt.value) if isinstance(n, (ast.GeneratorExp, ast.ListComp, ast.DictComp, ast.SetComp)) for g in n.generators[:1]]
+            if len(loads) == 1 and any(loads[0] is it for it in iters):
+                class R4(ast.NodeTransformer):
+                    def visit_Name(self, n):
+                        if n is loads[0]:
+                            return copy.deepcopy(s.value)
+                        return n
+                nxt.value = R4().visit(nxt.value)
+                changed += 1
+                i += 1
+                continue
+        if (isinstance(s, ast.Assign) and len(s.targets) == 1 and isinstance(s.targets[0], ast.Name) and isinstance(nxt, ast.If)
+                and uses.get(s.targets[0].id) == (1, 1) and isinstance(s.value, ast.Tuple) and s.value.elts
+                and all(_atom_elt(e) for e in s.value.elts) and not any(isinstance(n, ast.NamedExpr) for n in ast.walk(nxt.test))):
+            # `t = (<atoms>); if any(f() for f in t):` -- a display of atoms means the same wherever in the test it is read
+            name = s.targets[0].id
+            loads = [n for n in ast.walk(nxt.test) if isinstance(n, ast.Name) and n.id == name and isinstance(n.ctx, ast.Load)]
+            elsewhere = [n for b in nxt.body + nxt.orelse for n in ast.walk(b) if isinstance(n, ast.Name) and n.id == name]
+            iters = [g.iter for n in ast.walk(nxt.test) if isinstance(n, (ast.GeneratorExp, ast.ListComp)) for g in n.generators[:1]]
+            if len(loads) == 1 and not elsewhere and any(loads[0] is it for it in iters):
+                class R3(ast.NodeTransformer):
+                    def visit_Name(self, n):
+                        if n is loads[0]:
+                            return copy.deepcopy(s.value)
+                        return n
+                nxt.test = R3().visit(nxt.test)
+                changed += 1
+                i += 1
+                continue
         if (isinstance(s, ast.Assign) and len(s.targets) == 1 and isinstance(s.targets[0], ast.Name) and isinstance(nxt, ast.If)
                 and uses.get(s.targets[0].id) == (1, 1)):
             # `t = <expr>; if <test reading t once>:`  -- the test is the next thing evaluated
@@ -1111,6 +1230,8 @@ def _module_row_tables(tree):
             stores[n.id] = stores.get(n.id, 0) + 1
     globs = {g for n in ast.walk(tree) if isinstance(n, (ast.Global, ast.Nonlocal)) for g in n.names}
     defs = {n.name for n in tree.body if isinstance(n, (ast.FunctionDef, ast.ClassDef))}
+    # names bound by a module-level `from m import f` (and nowhere else) denote what was imported
+    defs |= {(a.asname or a.name) for n in tree.body if isinstance(n, ast.ImportFrom) for a in n.names if a.name != "*"}
 
     def cell(e):
         if isinstance(e, ast.Constant):
@@ -1146,8 +1267,24 @@ def _module_const_tuples(tree):
             return list(out[v.id])
         if isinstance(v, ast.BinOp) and isinstance(v.op, ast.Add):
             a, b = const_elts(v.left), const_elts(v.right)
-            if a is not None and b is not None and isinstance(v.left, (ast.Tuple, ast.Name, ast.BinOp)) and isinstance(v.right, (ast.Tuple, ast.Name, ast.BinOp)):
+            if a is not None and b is not None and isinstance(v.left, (ast.Tuple, ast.Name, ast.BinOp, ast.Subscript)) \
+                    and isinstance(v.right, (ast.Tuple, ast.Name, ast.BinOp, ast.Subscript)):
                 return a + b
+        # a constant slice of a constant tuple: `NAMES[:2]`, `NAMES[1:]`
+        if isinstance(v, ast.Subscript) and isinstance(v.slice, ast.Slice) and v.slice.step is None:
+            base = const_elts(v.value)
+            lo, hi = v.slice.lower, v.slice.upper
+            def cint(x):
+                if x is None:
+                    return None
+                if isinstance(x, ast.Constant) and isinstance(x.value, int) and not isinstance(x.value, bool):
+                    return x.value
+                if isinstance(x, ast.UnaryOp) and isinstance(x.op, ast.USub) and isinstance(x.operand, ast.Constant) and isinstance(x.operand.value, int):
+                    return -x.operand.value
+                return "?"
+            l_, h_ = cint(lo), cint(hi)
+            if base is not None and l_ != "?" and h_ != "?":
+                return base[l_:h_]
         return None
     for n in tree.body:
         if isinstance(n, ast.Assign) and len(n.targets) == 1 and isinstance(n.targets[0], ast.Name):
@@ -1268,6 +1405,25 @@ def _static_expand(fn, consts):
                     vals = [_ConstSubst(g.target.id, k).visit(copy.deepcopy(c.args[0].elt)) for k in rows_]
                     changed[0] += 1
                     return self.visit(ast.copy_location(ast.BoolOp(op=ast.Or() if c.func.id == "any" else ast.And(), values=vals), c))
+            # f(*(g(x) for x in TABLE), ...) / f(*[g(x) for x in TABLE]) / f(*tuple(g(x) for x in TABLE)): the elements written out as
+            # positional arguments (same evaluation order: the generator is exhausted where the star is evaluated)
+            if any(isinstance(a, ast.Starred) for a in c.args):
+                new_args = []
+                for a in c.args:
+                    v = a.value if isinstance(a, ast.Starred) else None
+                    if isinstance(v, ast.Call) and isinstance(v.func, ast.Name) and v.func.id in ("tuple", "list") and len(v.args) == 1 and not v.keywords:
+                        v = v.args[0]
+                    if isinstance(v, (ast.GeneratorExp, ast.ListComp)) and len(v.generators) == 1:
+                        g = v.generators[0]
+                        rows_ = consts[g.iter.id] if isinstance(g.iter, ast.Name) and g.iter.id in consts else \
+                            list(g.iter.elts) if isinstance(g.iter, (ast.Tuple, ast.List)) and 1 <= len(g.iter.elts) <= 12 and all(
+                                isinstance(e_, ast.Constant) for e_ in g.iter.elts) else None
+                        if rows_ is not None and not g.ifs and not g.is_async and isinstance(g.target, ast.Name) and len(rows_) <= 12:
+                            new_args.extend(_ConstSubst(g.target.id, k).visit(copy.deepcopy(v.elt)) for k in rows_)
+                            changed[0] += 1
+                            continue
+                    new_args.append(a)
+                c.args = new_args
             self.generic_visit(c)
             f = c.func
             if isinstance(f, ast.Name) and f.id == "getattr" and len(c.args) == 2 and not c.keywords and isinstance(c.args[1], ast.Constant) \
@@ -1318,9 +1474,39 @@ def _static_expand(fn, consts):
             return all(stable_expr(y) for y in x.elts)
         return False
     local_tables = {}
-    for name, v in single_assignments(fn, in_loops=False, loose=True).items():
-        if isinstance(v, ast.Tuple) and v.elts and stable_expr(v) and all(isinstance(r, (ast.Tuple, ast.Constant, ast.Name, ast.Attribute)) for r in v.elts):
-            local_tables[name] = list(v.elts)
+    sa_once = single_assignments(fn, in_loops=False, loose=True)
+
+    def as_tuple_elts(x, depth=0):
+        """elements of a tuple-valued expression built from displays, `+`, and locals bound once to such expressions"""
+        if depth > 4:
+            return None
+        if isinstance(x, ast.Tuple) and not any(isinstance(e, ast.Starred) for e in x.elts):
+            return list(x.elts)
+        if isinstance(x, ast.BinOp) and isinstance(x.op, ast.Add):
+            l, r = as_tuple_elts(x.left, depth + 1), as_tuple_elts(x.right, depth + 1)
+            return l + r if l is not None and r is not None else None
+        if isinstance(x, ast.Name) and x.id in sa_once and store_counts.get(x.id) == 1:
+            return as_tuple_elts(sa_once[x.id], depth + 1)
+        return None
+
+    def resolve_row(r):
+        # a row whose cells are tuple arithmetic (`plane + (self.max_key_len,)`) is read with those cells written out
+        if not isinstance(r, ast.Tuple):
+            return r
+        cells = []
+        for e in r.elts:
+            if isinstance(e, (ast.BinOp, ast.Name)):
+                te = as_tuple_elts(e) if not (isinstance(e, ast.Name) and e.id not in sa_once) else None
+                if te is not None and isinstance(e, ast.BinOp) or (te is not None and isinstance(e, ast.Name) and isinstance(sa_once.get(e.id), (ast.Tuple, ast.BinOp))):
+                    cells.append(ast.copy_location(ast.Tuple(elts=[copy.deepcopy(t_) for t_ in te], ctx=ast.Load()), e))
+                    continue
+            cells.append(e)
+        return ast.copy_location(ast.Tuple(elts=cells, ctx=ast.Load()), r)
+    for name, v in sa_once.items():
+        if isinstance(v, ast.Tuple) and v.elts and all(isinstance(r, (ast.Tuple, ast.Constant, ast.Name, ast.Attribute)) for r in v.elts):
+            v2 = ast.copy_location(ast.Tuple(elts=[resolve_row(r) for r in v.elts], ctx=ast.Load()), v)
+            if stable_expr(v2):
+                local_tables[name] = list(v2.elts)
 
     def strip_top_continue(body):
         """`if T: continue; rest` at the top level of a loop body -> `if not T: rest` (None if a break/continue remains elsewhere)."""
@@ -1371,6 +1557,15 @@ def _static_expand(fn, consts):
                 return ok(x.value)
             if isinstance(x, ast.Tuple):
                 return all(ok(y) for y in x.elts)          # immutable displays only (see stable_expr)
+            if isinstance(x, ast.Lambda):
+                # a lambda cell is only ever called: written where it is called it closes over the same variables
+                la = x.args
+                if la.defaults or la.kw_defaults or la.kwonlyargs or la.vararg or la.kwarg or la.posonlyargs:
+                    return False
+                if any(isinstance(y, (ast.Lambda, ast.ListComp, ast.SetComp, ast.DictComp, ast.GeneratorExp, ast.NamedExpr, ast.Yield, ast.YieldFrom, ast.Await))
+                       for y in ast.walk(x.body)):
+                    return False
+                return not any(isinstance(y, ast.Name) and y.id in body_stores for y in ast.walk(x.body))
             return False
         if all(ok(r) for r in it.elts) and all(isinstance(r, (ast.Tuple, ast.Constant, ast.Name, ast.Attribute)) for r in it.elts):
             return list(it.elts)
@@ -1387,12 +1582,17 @@ def _static_expand(fn, consts):
                     setattr(s_, fld, unroll_table_loops(getattr(s_, fld)))
             rows_ = None
             # a search loop over a table: `for t, f in ROWS: if C(t): BODY; break` [`else: ELSE`]  ==  if C(t1): BODY1 elif C(t2): ... [else: ELSE]
+            if isinstance(s_, ast.For) and len(s_.body) == 1 and isinstance(s_.body[0], ast.If) and s_.body[0].orelse \
+                    and all(isinstance(x_, (ast.Continue, ast.Pass)) for x_ in s_.body[0].orelse):
+                s_.body[0].orelse = []          # `else: continue` as the last thing of the body says nothing
             if isinstance(s_, ast.For) and len(s_.body) == 1 and isinstance(s_.body[0], ast.If) and not s_.body[0].orelse \
                     and s_.body[0].body and (isinstance(s_.body[0].body[-1], ast.Break) or
                                              (isinstance(s_.body[0].body[-1], ast.Return) and not s_.orelse)) \
                     and not any(isinstance(x, (ast.Break, ast.Continue)) for b in s_.body[0].body[:-1] for x in ast.walk(b)) \
                     and _pure_expr(s_.body[0].test):
                 srows = local_tables.get(s_.iter.id) if isinstance(s_.iter, ast.Name) else inline_rows(s_)
+                if srows is None and isinstance(s_.iter, ast.Name) and s_.iter.id in _MODULE_ROW_TABLES and s_.iter.id not in stored_names:
+                    srows = _MODULE_ROW_TABLES[s_.iter.id]
                 tg = s_.target
                 names = [tg.id] if isinstance(tg, ast.Name) else [e_.id for e_ in tg.elts] if isinstance(tg, (ast.Tuple, ast.List)) and all(isinstance(e_, ast.Name) for e_ in tg.elts) else None
                 stores_in_body = {x.id for b in s_.body for x in ast.walk(b) if isinstance(x, ast.Name) and isinstance(x.ctx, (ast.Store, ast.Del))}
@@ -1613,6 +1813,18 @@ def _expand_module_aliases(tree):
 def _expand_module_constants(tree):
     """`_BATCH = 2048`, `_UINT32_MAX = 2**32 - 1`, `_ONE = np.uint64(1)` at module level (bound once, a constant expression):
     every use is replaced by the expression."""
+    # `A, B = PAIR = (0, 1)` at module level: a display of literals is the same immutable value for every target
+    nb = []
+    for st in tree.body:
+        if isinstance(st, ast.Assign) and len(st.targets) > 1 and (
+                (isinstance(st.value, ast.Tuple) and st.value.elts and all(isinstance(e, ast.Constant) for e in st.value.elts))
+                or (isinstance(st.value, ast.Constant) and not isinstance(st.value.value, (bytes,)))) \
+                and all(isinstance(t, ast.Name) or (isinstance(t, (ast.Tuple, ast.List)) and all(isinstance(x, ast.Name) for x in t.elts)) for t in st.targets):
+            for t in reversed(st.targets):          # the name of the whole first, so that an unpacking can refer to it
+                nb.append(ast.fix_missing_locations(ast.copy_location(ast.Assign(targets=[t], value=copy.deepcopy(st.value)), st)))
+        else:
+            nb.append(st)
+    tree.body = nb
     stores = {}
     for n in ast.walk(tree):
         if isinstance(n, ast.Name) and isinstance(n.ctx, (ast.Store, ast.Del)):
@@ -1627,7 +1839,8 @@ def _expand_module_constants(tree):
 
     def const_expr(v, known):
         if isinstance(v, ast.Constant):
-            return isinstance(v.value, (int, float)) and not isinstance(v.value, bool)
+            # numbers, and the singletons None / True / False (`x is _POISON_PILL` with `_POISON_PILL = None`)
+            return isinstance(v.value, (int, float)) or v.value is None
         if isinstance(v, ast.Name):
             return v.id in known
         if isinstance(v, ast.UnaryOp) and isinstance(v.op, (ast.USub, ast.UAdd, ast.Invert)):
@@ -1641,16 +1854,65 @@ def _expand_module_constants(tree):
                 return const_expr(v.args[0], known)
         return False
     consts = {}
+    const_tuples = {}          # NAME = (<constant expressions>) bound once: usable as the right-hand side of a later unpacking
     for n in tree.body:
         if isinstance(n, ast.Assign) and len(n.targets) == 1 and isinstance(n.targets[0], ast.Name) and stores.get(n.targets[0].id) == 1 \
                 and const_expr(n.value, consts):
             consts[n.targets[0].id] = n.value
+        elif isinstance(n, ast.Assign) and len(n.targets) == 1 and isinstance(n.targets[0], ast.Name) and stores.get(n.targets[0].id) == 1 \
+                and isinstance(n.value, ast.Tuple) and n.value.elts and all(const_expr(e, consts) for e in n.value.elts):
+            const_tuples[n.targets[0].id] = list(n.value.elts)
+        elif isinstance(n, ast.Assign) and len(n.targets) == 1 and isinstance(n.targets[0], (ast.Tuple, ast.List)) \
+                and all(isinstance(t, ast.Name) and stores.get(t.id) == 1 for t in n.targets[0].elts):
+            # `A, B = 2048, 1`  /  `A, B = _PAIR` with _PAIR a constant tuple bound once
+            vals = list(n.value.elts) if isinstance(n.value, (ast.Tuple, ast.List)) else \
+                const_tuples.get(n.value.id) if isinstance(n.value, ast.Name) else None
+            if vals is not None and len(vals) == len(n.targets[0].elts) and all(const_expr(e, consts) for e in vals):
+                for t, e in zip(n.targets[0].elts, vals):
+                    consts[t.id] = e
         elif isinstance(n, ast.AnnAssign) and n.value is not None and isinstance(n.target, ast.Name) and stores.get(n.target.id) == 1 \
                 and const_expr(n.value, consts):
             consts[n.target.id] = n.value
-    if not consts:
-        return 0
     count = [0]
+    # string/int tables too (`_NPZ_KEYS = ("args", "hll")`), when never mutated
+    for nm_, elts_ in _module_const_tuples(tree).items():
+        const_tuples.setdefault(nm_, list(elts_))
+    mutated = {n.value.id for n in ast.walk(tree) if isinstance(n, ast.Subscript) and isinstance(n.ctx, (ast.Store, ast.Del)) and isinstance(n.value, ast.Name)}
+    if const_tuples:
+        class U(ast.NodeTransformer):
+            # `a, b = _PAIR` inside a function, and `for w in _SHIFTS:` inside a kernel: the table's display takes the name's place
+            def __init__(self):
+                self.kernel = False
+
+            def visit_FunctionDef(self, f):
+                prev, self.kernel = self.kernel, self.kernel or _is_njit(f)
+                self.generic_visit(f)
+                self.kernel = prev
+                return f
+
+            def visit_Assign(self, a):
+                self.generic_visit(a)
+                if len(a.targets) == 1 and isinstance(a.targets[0], (ast.Tuple, ast.List)) and isinstance(a.value, ast.Name) \
+                        and a.value.id in const_tuples and a.value.id not in mutated and len(const_tuples[a.value.id]) == len(a.targets[0].elts) \
+                        and not any(isinstance(t, ast.Starred) for t in a.targets[0].elts):
+                    a.value = ast.copy_location(ast.Tuple(elts=[copy.deepcopy(e) for e in const_tuples[a.value.id]], ctx=ast.Load()), a.value)
+                    count[0] += 1
+                return a
+
+            def visit_For(self, f):
+                self.generic_visit(f)
+                if self.kernel and isinstance(f.iter, ast.Name) and f.iter.id in const_tuples and f.iter.id not in mutated \
+                        and all((isinstance(e, ast.Constant) and isinstance(e.value, int)) or (isinstance(e, ast.Name) and e.id in consts)
+                                for e in const_tuples[f.iter.id]):
+                    f.iter = ast.copy_location(ast.Tuple(elts=[copy.deepcopy(e) for e in const_tuples[f.iter.id]], ctx=ast.Load()), f.iter)
+                    count[0] += 1
+                return f
+        for fn_ in tree.body:
+            if isinstance(fn_, (ast.FunctionDef, ast.ClassDef)):
+                U().visit(fn_)
+        ast.fix_missing_locations(tree)
+    if not consts:
+        return count[0]
 
     class T(ast.NodeTransformer):
         def visit_Name(self, n):
@@ -1944,6 +2206,83 @@ def _pure_simple(e, depth=0):
     return False
 
 
+_MODULE_CONST_TUPLES_G = {}       # set by normalize() for the module being normalised
+
+
+def _atom_elt(e):
+    """An element whose evaluation has no effect and whose meaning does not depend on when it is evaluated within one statement."""
+    if isinstance(e, (ast.Constant, ast.Lambda)):
+        return True
+    if isinstance(e, ast.Name):
+        return True
+    if isinstance(e, ast.Attribute):
+        return _dotted_name(e) is not None
+    if isinstance(e, ast.Tuple):
+        return all(_atom_elt(x) for x in e.elts)
+    return False
+
+
+def _comp_instances(comp, with_conds=False, elt=None):
+    """The element expressions of `(ELT for T in DISPLAY)` / `enumerate(DISPLAY)` / `zip(DISPLAY, ...)` over literal displays of
+    atoms, written out in order; None when the comprehension is of another shape.  With `with_conds`, pairs (condition or None,
+    element) for a comprehension that filters."""
+    if not isinstance(comp, (ast.GeneratorExp, ast.ListComp, ast.DictComp, ast.SetComp)) or len(comp.generators) != 1:
+        return None
+    g = comp.generators[0]
+    if (g.ifs and not with_conds) or g.is_async:
+        return None
+    if elt is None:
+        elt = comp.elt
+
+    def display(x):
+        if isinstance(x, (ast.Tuple, ast.List)) and 0 < len(x.elts) <= 8 and all(_atom_elt(e) for e in x.elts):
+            return list(x.elts)
+        # a module-level constant table (`_MUST_MATCH = ("width", "depth")`, bound once, never mutated), named
+        if isinstance(x, ast.Name) and x.id in _MODULE_CONST_TUPLES_G and 0 < len(_MODULE_CONST_TUPLES_G[x.id]) <= 8:
+            return [copy.deepcopy(e) for e in _MODULE_CONST_TUPLES_G[x.id]]
+        return None
+    it = g.iter
+    rows = display(it)
+    if rows is None and isinstance(it, ast.Call) and isinstance(it.func, ast.Name) and not it.keywords and it.args:
+        if it.func.id == "enumerate" and len(it.args) == 1 and display(it.args[0]) is not None:
+            rows = [ast.Tuple(elts=[ast.Constant(value=i), e], ctx=ast.Load()) for i, e in enumerate(display(it.args[0]))]
+        elif it.func.id == "zip" and all(display(a) is not None for a in it.args) and len({len(a.elts) for a in it.args}) == 1:
+            rows = [ast.Tuple(elts=list(r), ctx=ast.Load()) for r in zip(*[display(a) for a in it.args])]
+    if rows is None:
+        return None
+
+    def bind(t, v, env):
+        if isinstance(t, ast.Name):
+            env[t.id] = v
+            return True
+        if isinstance(t, (ast.Tuple, ast.List)) and isinstance(v, ast.Tuple) and len(t.elts) == len(v.elts) \
+                and not any(isinstance(x, ast.Starred) for x in t.elts):
+            return all(bind(a, b, env) for a, b in zip(t.elts, v.elts))
+        return False
+    out = []
+    for r in rows:
+        env = {}
+        if not bind(g.target, r, env):
+            return None
+        # the comprehension's own variable must not be captured by a lambda element that also names it
+        if any(isinstance(n, ast.Lambda) and any(a.arg in env for a in n.args.args) for x_ in [elt] + list(g.ifs) for n in ast.walk(x_)):
+            return None
+
+        class S(ast.NodeTransformer):
+            def visit_Name(self, n):
+                if n.id in env and isinstance(n.ctx, ast.Load):
+                    return ast.copy_location(copy.deepcopy(env[n.id]), n)
+                return n
+        e_ = _FoldDisplays().visit(S().visit(copy.deepcopy(elt)))
+        if with_conds:
+            cs = [_FoldDisplays().visit(S().visit(copy.deepcopy(c))) for c in g.ifs]
+            cond = None if not cs else cs[0] if len(cs) == 1 else ast.BoolOp(op=ast.And(), values=cs)
+            out.append((cond, e_))
+        else:
+            out.append(e_)
+    return out
+
+
 class _FoldDisplays(ast.NodeTransformer):
     """Spelled-out container constructions are read as the displays they equal:
     `dict(a=x, b=y)` -> `{"a": x, "b": y}`;  `tuple(f(i) for i in range(3))` -> `(f(0), f(1), f(2))`;  `(a, b) + (c,)` -> `(a, b, c)`;
@@ -1961,10 +2300,65 @@ class _FoldDisplays(ast.NodeTransformer):
 
     def visit_Call(self, c):
         self.generic_visit(c)
+        # `getattr(x, "name")` -> `x.name`
+        if isinstance(c.func, ast.Name) and c.func.id == "getattr" and len(c.args) == 2 and not c.keywords and isinstance(c.args[1], ast.Constant) \
+                and isinstance(c.args[1].value, str) and c.args[1].value.isidentifier() and not c.args[1].value.startswith("__"):
+            return ast.copy_location(ast.Attribute(value=c.args[0], attr=c.args[1].value, ctx=ast.Load()), c)
+        # `(lambda: X)()` -> `X`
+        if isinstance(c.func, ast.Lambda) and not c.args and not c.keywords:
+            la = c.func.args
+            if not (la.args or la.posonlyargs or la.kwonlyargs or la.vararg or la.kwarg):
+                return c.func.body
+        # `(lambda r: T[r])(row)` -> `T[row]` for effect-free simple arguments
+        if isinstance(c.func, ast.Lambda) and c.args and not c.keywords and all(_pure_simple(a) for a in c.args):
+            la = c.func.args
+            if len(la.args) == len(c.args) and not (la.posonlyargs or la.kwonlyargs or la.vararg or la.kwarg or la.defaults) \
+                    and not any(isinstance(y, (ast.Lambda, ast.ListComp, ast.SetComp, ast.DictComp, ast.GeneratorExp, ast.NamedExpr))
+                                for y in ast.walk(c.func.body)):
+                env = {p_.arg: a for p_, a in zip(la.args, c.args)}
+                arg_names = {y.id for a in c.args for y in ast.walk(a) if isinstance(y, ast.Name)}
+                if not (arg_names & set(env)) or all(isinstance(a, ast.Name) and a.id == p_.arg for p_, a in zip(la.args, c.args)):
+                    class SB(ast.NodeTransformer):
+                        def visit_Name(self, n):
+                            if n.id in env and isinstance(n.ctx, ast.Load):
+                                return ast.copy_location(copy.deepcopy(env[n.id]), n)
+                            return n
+                    return SB().visit(c.func.body)
+        # `any(ELT for T in <display>)` / `all(...)` -> the or/and chain it evaluates (same order, same short circuit, truth value)
+        if isinstance(c.func, ast.Name) and c.func.id in ("any", "all") and len(c.args) == 1 and not c.keywords:
+            inst = _comp_instances(c.args[0])
+            if inst is not None and len(inst) >= 2:
+                bo = ast.BoolOp(op=ast.Or() if c.func.id == "any" else ast.And(), values=inst)
+                return ast.fix_missing_locations(ast.copy_location(ast.Call(func=ast.Name(id="bool", ctx=ast.Load()), args=[bo], keywords=[]), c))
+        # `next((E for T in <display> if C), D)` -> `E1 if C1 else E2 if C2 else ... D` (first match, conditions tried in order)
+        if isinstance(c.func, ast.Name) and c.func.id == "next" and len(c.args) == 2 and not c.keywords and isinstance(c.args[0], ast.GeneratorExp) \
+                and _pure_simple(c.args[1]):
+            inst = _comp_instances(c.args[0], with_conds=True)
+            if inst is not None and all(cond is not None and _pure_expr(cond) for cond, _ in inst) and all(_pure_simple(e_) for _, e_ in inst):
+                node = c.args[1]
+                for cond, e_ in reversed(inst):
+                    node = ast.IfExp(test=cond, body=e_, orelse=node)
+                return ast.fix_missing_locations(ast.copy_location(node, c))
+        # `g(*(ELT for T in <display>))` -> `g(ELT1, ELT2, ...)`
+        if any(isinstance(a, ast.Starred) and _comp_instances(a.value) is not None for a in c.args):
+            na = []
+            for a in c.args:
+                inst = _comp_instances(a.value) if isinstance(a, ast.Starred) else None
+                if inst is not None:
+                    na.extend(inst)
+                else:
+                    na.append(a)
+            c.args = na
+            ast.fix_missing_locations(c)
         if isinstance(c.func, ast.Name) and c.func.id == "dict" and not c.args and c.keywords and all(k.arg for k in c.keywords):
             return ast.copy_location(ast.Dict(keys=[ast.Constant(value=k.arg) for k in c.keywords], values=[k.value for k in c.keywords]), c)
         if isinstance(c.func, ast.Name) and c.func.id in ("tuple", "list") and len(c.args) == 1 and not c.keywords \
                 and isinstance(c.args[0], (ast.GeneratorExp, ast.ListComp)) and len(c.args[0].generators) == 1:
+            inst = _comp_instances(c.args[0])
+            if inst is not None:
+                # `tuple(t[i] for t in (A, B, C))` -> `(A[i], B[i], C[i])`
+                mk = ast.Tuple if c.func.id == "tuple" else ast.List
+                return ast.fix_missing_locations(ast.copy_location(mk(elts=inst, ctx=ast.Load()), c))
             g = c.args[0].generators[0]
             it = g.iter
             if isinstance(g.target, ast.Name) and not g.ifs and not g.is_async and isinstance(it, ast.Call) and isinstance(it.func, ast.Name) \
@@ -2016,6 +2410,32 @@ class _FoldDisplays(ast.NodeTransformer):
                     and not isinstance(a.value.args[0], (ast.GeneratorExp, ast.ListComp)):
                 a.value = a.value.args[0]
         return c
+
+    def visit_DictComp(self, n):
+        # `{f: getattr(self, f) for f in ("a", "b")}` -> `{"a": getattr(self, "a"), "b": getattr(self, "b")}`
+        self.generic_visit(n)
+        ks = _comp_instances(n, elt=n.key)
+        vs = _comp_instances(n, elt=n.value)
+        if ks is not None and vs is not None and all(isinstance(k, ast.Constant) for k in ks) and len({k.value for k in ks}) == len(ks):
+            return ast.fix_missing_locations(ast.copy_location(ast.Dict(keys=ks, values=vs), n))
+        return n
+
+    def visit_Dict(self, d):
+        # `{"a": x, **{"b": y, "c": z}}` -> `{"a": x, "b": y, "c": z}` when all keys are distinct constants
+        self.generic_visit(d)
+        if any(k is None and isinstance(v, ast.Dict) and all(isinstance(k2, ast.Constant) for k2 in v.keys) for k, v in zip(d.keys, d.values)):
+            keys, vals = [], []
+            for k, v in zip(d.keys, d.values):
+                if k is None and isinstance(v, ast.Dict) and all(isinstance(k2, ast.Constant) for k2 in v.keys):
+                    keys.extend(v.keys)
+                    vals.extend(v.values)
+                else:
+                    keys.append(k)
+                    vals.append(v)
+            consts_ = [k.value for k in keys if isinstance(k, ast.Constant)]
+            if all(k is None or isinstance(k, ast.Constant) for k in keys) and len(set(consts_)) == len(consts_):
+                d.keys, d.values = keys, vals
+        return d
 
     def visit_ListComp(self, n):
         # `[f(i) for i in range(3)]` -> `[f(0), f(1), f(2)]`
@@ -2499,6 +2919,100 @@ def _ndindex_loops(tree):
     """`for i, j in np.ndindex(a, b):` (tuple target of the same arity, no break, no else) is the row-major nest
     `for i in range(a): for j in range(b):` -- `continue` means the same in both spellings."""
     count = [0]
+    fresh = itertools.count()
+
+    class G(ast.NodeTransformer):
+        # `for T in (E for V in IT if C): BODY` -- the generator is consumed lazily, one element per iteration, so this is
+        # `for V' in IT: if C: T = E; BODY` (V' a fresh name: the generator's variable is its own)
+        def nest(self, n, ge):
+            # `for T in (E for V1 in I1 for V2 in I2 if C): BODY` is the nest `for V1' in I1: for V2' in I2: if C: T = E; BODY`;
+            # a `break` in BODY would leave only the inner loop of the nest, so such bodies are left alone
+            def own_break(stmts):
+                for st in stmts:
+                    if isinstance(st, ast.Break):
+                        return True
+                    if isinstance(st, (ast.For, ast.While, ast.AsyncFor, ast.FunctionDef, ast.AsyncFunctionDef, ast.ClassDef)):
+                        if own_break(getattr(st, "orelse", []) or []):
+                            return True
+                        continue
+                    for fld in ("body", "orelse", "finalbody"):
+                        if own_break(getattr(st, fld, []) or []):
+                            return True
+                    for h in getattr(st, "handlers", []) or []:
+                        if own_break(h.body):
+                            return True
+                return False
+            if own_break(n.body):
+                return n
+            k = next(fresh)
+            vnames = {x.id for g_ in ge.generators for x in ast.walk(g_.target) if isinstance(x, ast.Name)}
+            ren = {v: "%s__gx%d" % (v, k) for v in vnames}
+
+            class R(ast.NodeTransformer):
+                def visit_Name(self, x):
+                    if x.id in ren:
+                        return ast.copy_location(ast.Name(id=ren[x.id], ctx=x.ctx), x)
+                    return x
+            elt = R().visit(copy.deepcopy(ge.elt))
+            body = list(n.body)
+            tstores = {x.id for st in n.body for x in ast.walk(st) if isinstance(x, ast.Name) and isinstance(x.ctx, (ast.Store, ast.Del))}
+            if isinstance(n.target, ast.Name) and isinstance(elt, ast.Tuple) and all(isinstance(e, ast.Name) for e in elt.elts) \
+                    and n.target.id not in tstores and not (tstores & {e.id for e in elt.elts}):
+                # the item is a tuple of the nest's own variables: the body reads the display
+                body = [_ConstSubst(n.target.id, elt).visit(st) for st in body]
+            body = [ast.Assign(targets=[copy.deepcopy(n.target)], value=elt)] + body
+            # the first iterable is evaluated in the enclosing scope, the others and the conditions see the renamed variables
+            for gi in range(len(ge.generators) - 1, -1, -1):
+                g_ = ge.generators[gi]
+                conds = [R().visit(copy.deepcopy(c)) for c in g_.ifs]
+                if conds:
+                    test = conds[0] if len(conds) == 1 else ast.BoolOp(op=ast.And(), values=conds)
+                    body = [ast.If(test=test, body=body, orelse=[])]
+                it = copy.deepcopy(g_.iter) if gi == 0 else R().visit(copy.deepcopy(g_.iter))
+                body = [ast.For(target=R().visit(copy.deepcopy(g_.target)), iter=it, body=body, orelse=[], type_comment=None)]
+            count[0] += 1
+            return ast.fix_missing_locations(ast.copy_location(body[0], n))
+
+        def visit_For(self, n):
+            self.generic_visit(n)
+            ge = n.iter
+            if isinstance(ge, ast.GeneratorExp) and len(ge.generators) > 1 and not n.orelse and not any(g_.is_async for g_ in ge.generators) \
+                    and not any(isinstance(x, (ast.NamedExpr, ast.Yield, ast.YieldFrom, ast.Await, ast.Lambda)) for x in ast.walk(ge)):
+                return self.nest(n, ge)
+            if not (isinstance(ge, ast.GeneratorExp) and len(ge.generators) == 1 and not ge.generators[0].is_async and not n.orelse):
+                return n
+            g = ge.generators[0]
+            if any(isinstance(x, (ast.NamedExpr, ast.Yield, ast.YieldFrom, ast.Await, ast.Lambda)) for x in ast.walk(ge)):
+                return n
+            k = next(fresh)
+            vnames = {x.id for x in ast.walk(g.target) if isinstance(x, ast.Name)}
+            ren = {v: "%s__gx%d" % (v, k) for v in vnames}
+
+            class R(ast.NodeTransformer):
+                def visit_Name(self, x):
+                    if x.id in ren:
+                        return ast.copy_location(ast.Name(id=ren[x.id], ctx=x.ctx), x)
+                    return x
+            tgt = R().visit(copy.deepcopy(g.target))
+            elt = R().visit(copy.deepcopy(ge.elt))
+            conds = [R().visit(copy.deepcopy(c)) for c in g.ifs]
+            if isinstance(g.target, ast.Name) and isinstance(ge.elt, ast.Name) and ge.elt.id == g.target.id and isinstance(n.target, (ast.Tuple, ast.List)) \
+                    and all(isinstance(t, ast.Name) for t in n.target.elts) and isinstance(g.iter, ast.Call) \
+                    and _dotted_name(g.iter.func) in ("product", "itertools.product", "np.ndindex", "numpy.ndindex") and len(g.iter.args) == len(n.target.elts):
+                # the element is the item itself and the item is a k-tuple: the loop's own targets take its components
+                disp = ast.Tuple(elts=[ast.Name(id=t.id, ctx=ast.Load()) for t in n.target.elts], ctx=ast.Load())
+                conds = [_ConstSubst(ren[g.target.id], disp).visit(c) for c in conds]
+                tgt, first = copy.deepcopy(n.target), []
+            else:
+                first = [ast.Assign(targets=[copy.deepcopy(n.target)], value=elt)]
+            body = first + n.body
+            if conds:
+                test = conds[0] if len(conds) == 1 else ast.BoolOp(op=ast.And(), values=conds)
+                body = [ast.If(test=test, body=body, orelse=[])]
+            new = ast.For(target=tgt, iter=g.iter, body=body, orelse=[], type_comment=None)
+            count[0] += 1
+            return ast.fix_missing_locations(ast.copy_location(new, n))
+    G().visit(tree)
 
     class T(ast.NodeTransformer):
         def visit_For(self, n):
@@ -2617,6 +3131,12 @@ def _hoist_class_constants(tree):
 
     def lit(v):
         if isinstance(v, ast.Constant) and isinstance(v.value, (str, int, float)) and not isinstance(v.value, bool):
+            return True
+        # `np.uint64(7)`: a numpy scalar of a literal
+        if isinstance(v, ast.Call) and len(v.args) == 1 and not v.keywords and isinstance(v.args[0], ast.Constant) \
+                and isinstance(v.args[0].value, (int, float)) and not isinstance(v.args[0].value, bool) \
+                and (_dotted_name(v.func) or "").split(".")[-1] in ("uint8", "uint16", "uint32", "uint64", "int8", "int16", "int32", "int64", "float32", "float64") \
+                and (_dotted_name(v.func) or "").split(".")[0] in ("np", "numpy", "uint8", "uint16", "uint32", "uint64", "int8", "int16", "int32", "int64", "float32", "float64"):
             return True
         if isinstance(v, (ast.Tuple, ast.List)) and v.elts:
             return all(lit(e) or (isinstance(e, (ast.Tuple, ast.List)) and all(lit(x) for x in e.elts)) for e in v.elts)
@@ -3254,6 +3774,93 @@ def _expand_filtered_tables(fn):
     if n[0]:
         ast.fix_missing_locations(fn)
     return n[0]
+
+
+def _scalarise_local_dicts(fn):
+    """A local `d = {}` (bound once, at the top level of the function) whose every other occurrence is `d["k"]` with a constant
+    string key, loaded or stored, is a record of independent variables: `d["k"]` becomes the local `d__k`.  (A read of a key that
+    was never stored fails either way; only the exception's type differs.)"""
+    stores, others = {}, {}
+    parents = {}
+    for p_ in ast.walk(fn):
+        for c_ in ast.iter_child_nodes(p_):
+            parents[id(c_)] = p_
+    params = {a.arg for a in fn.args.args + fn.args.kwonlyargs} | ({fn.args.vararg.arg} if fn.args.vararg else set()) | \
+        ({fn.args.kwarg.arg} if fn.args.kwarg else set())
+    cands = {}
+    for st in fn.body:
+        if isinstance(st, ast.Assign) and len(st.targets) == 1 and isinstance(st.targets[0], ast.Name) and isinstance(st.value, ast.Dict) \
+                and not st.value.keys and st.targets[0].id not in params:
+            cands.setdefault(st.targets[0].id, []).append(st)
+    if not cands:
+        return 0
+    if any(isinstance(x, (ast.FunctionDef, ast.AsyncFunctionDef, ast.Lambda, ast.ClassDef)) and x is not fn for x in ast.walk(fn)):
+        return 0
+    all_names = {x.id for x in ast.walk(fn) if isinstance(x, ast.Name)}
+    done = 0
+    for name, defs in cands.items():
+        if len(defs) != 1:
+            continue
+        ok, keys = True, set()
+        for x in ast.walk(fn):
+            if isinstance(x, ast.Name) and x.id == name and x is not defs[0].targets[0]:
+                par = parents.get(id(x))
+                if not (isinstance(par, ast.Subscript) and par.value is x and isinstance(par.ctx, (ast.Load, ast.Store))
+                        and isinstance(par.slice, ast.Constant) and isinstance(par.slice.value, str) and par.slice.value.isidentifier()):
+                    ok = False
+                    break
+                # `d["k"] += v` reads and writes the same variable: fine; `del` is not accepted (ctx checked above)
+                keys.add(par.slice.value)
+        if not ok or not keys or any("%s__%s" % (name, k) in all_names for k in keys):
+            continue
+
+        class R(ast.NodeTransformer):
+            def visit_Subscript(self, n):
+                self.generic_visit(n)
+                if isinstance(n.value, ast.Name) and n.value.id == name and isinstance(n.slice, ast.Constant):
+                    return ast.copy_location(ast.Name(id="%s__%s" % (name, n.slice.value), ctx=n.ctx), n)
+                return n
+        R().visit(fn)
+        fn.body = [st for st in fn.body if st is not defs[0]]
+        done += 1
+    return done
+
+
+def _append_then_read_last(stmts):
+    """`L.append(E); t = L[len(L) - 1]` (or `L[-1]`), adjacent: t is the object just appended -> `t = E; L.append(t)`."""
+    n = 0
+    for i in range(len(stmts) - 1):
+        a, b = stmts[i], stmts[i + 1]
+        if isinstance(a, ast.Expr) and isinstance(a.value, ast.Call) and isinstance(a.value.func, ast.Attribute) and a.value.func.attr == "append" \
+                and isinstance(a.value.func.value, ast.Name) and len(a.value.args) == 1 and not a.value.keywords \
+                and not isinstance(a.value.args[0], ast.Starred) \
+                and isinstance(b, ast.Assign) and len(b.targets) == 1 and isinstance(b.targets[0], ast.Name) and isinstance(b.value, ast.Subscript) \
+                and isinstance(b.value.value, ast.Name) and b.value.value.id == a.value.func.value.id and b.targets[0].id != b.value.value.id:
+            L = a.value.func.value.id
+            sl = b.value.slice
+            last = (isinstance(sl, ast.UnaryOp) and isinstance(sl.op, ast.USub) and isinstance(sl.operand, ast.Constant) and sl.operand.value == 1) \
+                or (isinstance(sl, ast.Constant) and sl.value == -1) \
+                or (isinstance(sl, ast.BinOp) and isinstance(sl.op, ast.Sub) and isinstance(sl.right, ast.Constant) and sl.right.value == 1
+                    and isinstance(sl.left, ast.Call) and isinstance(sl.left.func, ast.Name) and sl.left.func.id == "len" and len(sl.left.args) == 1
+                    and isinstance(sl.left.args[0], ast.Name) and sl.left.args[0].id == L)
+            t = b.targets[0].id
+            if last and not any(isinstance(x, ast.Name) and x.id == t for x in ast.walk(a.value.args[0])):
+                stmts[i] = ast.copy_location(ast.Assign(targets=[ast.Name(id=t, ctx=ast.Store())], value=a.value.args[0]), a)
+                a.value.args = [ast.Name(id=t, ctx=ast.Load())]
+                stmts[i + 1] = ast.copy_location(a, b)
+                ast.fix_missing_locations(stmts[i])
+                ast.fix_missing_locations(stmts[i + 1])
+                n += 1
+    for st in stmts:
+        if isinstance(st, (ast.FunctionDef, ast.AsyncFunctionDef, ast.ClassDef)):
+            continue
+        for fld in ("body", "orelse", "finalbody"):
+            blk = getattr(st, fld, None)
+            if isinstance(blk, list):
+                n += _append_then_read_last(blk)
+        for h in getattr(st, "handlers", []) or []:
+            n += _append_then_read_last(h.body)
+    return n
 
 
 def _fold_local_const_dicts(fn):
@@ -4182,6 +4789,16 @@ def _sink_tail_into_handlers(tree):
     return n[0]
 
 
+def _drop_empty_else(tree):
+    """`else: pass` (on if / for / while / try) is no else clause at all."""
+    n = 0
+    for x in ast.walk(tree):
+        if isinstance(x, (ast.If, ast.For, ast.While, ast.Try)) and x.orelse and all(isinstance(st, ast.Pass) for st in x.orelse):
+            x.orelse = []
+            n += 1
+    return n
+
+
 def _desugar_walrus_whiles(tree):
     """`while (x := E) <cmp> K: BODY`  ->  `while True: x = E; if not (x <cmp> K): break; BODY` -- the assignment expression is the
     first thing the test evaluates (the test itself, or the left operand of its one comparison), so every trip, including the one
@@ -4214,6 +4831,7 @@ def _desugar_walrus_whiles(tree):
 
 
 def normalize(tree):
+    _drop_empty_else(tree)
     _desugar_walrus_whiles(tree)
     _priming_read_loops(tree)
     _inline_generators(tree)
@@ -4283,6 +4901,8 @@ def normalize(tree):
     ast.fix_missing_locations(tree)
     tree._inlined_helpers = set(inl.inlined_names)
     consts = _module_const_tuples(tree)
+    _MODULE_CONST_TUPLES_G.clear()
+    _MODULE_CONST_TUPLES_G.update(consts)
     _MODULE_ROW_TABLES.clear()
     _MODULE_ROW_TABLES.update(_module_row_tables(tree))
     for node in ast.walk(tree):
@@ -4290,6 +4910,8 @@ def normalize(tree):
             _fuse_row_views(node)
         if isinstance(node, ast.FunctionDef) and _is_njit(node):
             _inline_local_consts(node)
+            _beta_reduce_local_lambdas(node)          # `decode = lambda c: _counter2value(c, nr, base)` inside a kernel
+            _drop_dead_pure_stores(node)
             _fork_minmax_feeding_loop_bounds(node)
             _sink_store_into_arms(node)
             _split_bool_casts(node)
@@ -4324,11 +4946,24 @@ def normalize(tree):
                 if not _propagate_copies(node):
                     break
             _drop_dead_pure_stores(node)
+            _append_then_read_last(node.body)
+            _scalarise_local_dicts(node)
             for _ in range(3):
                 node.body, c = _inline_adjacent_single_use(node.body, _name_uses(node))
                 if not c:
                     break
             _FoldDisplays().visit(node)       # displays exposed by the propagation (`*tuple(xs)`, `(a, b) + (c,)`)
+            if any(isinstance(x, ast.For) and isinstance(x.iter, ast.GeneratorExp) for x in ast.walk(node)):
+                if _ndindex_loops(node):             # `occupied = (b for b in product(...) if ...); for r, c in occupied:` just joined
+                    _eliminate_loop_continues(node)
+                    node.body = _split_simple_statements(node.body)
+            if any(isinstance(x, ast.Assign) and isinstance(x.value, ast.IfExp) for x in ast.walk(node)):
+                # a selector chain a folded `next(...)` has just become
+                node.body = _split_simple_statements(node.body)
+                if _sink_into_selector_chain(node):
+                    _SimplifySelectorTests().visit(node)
+                    _PruneConstantIfs().visit(node)
+                    _drop_unreachable(node.body)
             if _static_expand(node, consts) + ch_first:  # getattr(x, 'lit') / **{...} / unrolled table loops exposed by the propagation
                 # what the unrolling exposed: `d = {...}; d["k"] = v` item stores, `a, b = u, v`, a dict display used once as `**d`
                 _merge_dict_item_stores(node.body)
@@ -4346,7 +4981,9 @@ def normalize(tree):
                 if _fold_local_const_dicts(node) + _beta_reduce_local_lambdas(node):
                     _static_expand(node, consts)             # getattr(self, 'lit') exposed by a reduced lambda
                     _FoldDisplays().visit(node)
+                _scalarise_local_dicts(node)             # `finals[tag] = ...` of an unrolled table loop
                 _drop_dead_pure_stores(node)
+    _hoist_scalar_helper_calls(tree)          # calls that a split conditional expression has just exposed
     # a private helper whose every use was inlined is dead for the analysis: its body is judged where it now runs
     dropped = set()
     for name in sorted(tree._inlined_helpers):
